@@ -1,0 +1,27 @@
+//go:build verif
+
+// Package verifhook provides verification hook points that compile to nothing unless the `verif` build tag is set.
+package verifhook
+
+import "sync/atomic"
+
+var hook atomic.Pointer[func(site string)]
+
+// Enabled reports whether the hooks are compiled in.
+const Enabled = true
+
+// Set installs the function called at every hook site (nil removes it).
+func Set(f func(site string)) {
+	if f == nil {
+		hook.Store(nil)
+		return
+	}
+	hook.Store(&f)
+}
+
+// At is called at a hook site.
+func At(site string) {
+	if f := hook.Load(); f != nil {
+		(*f)(site)
+	}
+}
